@@ -16,7 +16,7 @@ import (
 	"syscall"
 
 	"github.com/whoisnian/glb/util/osutil"
-	"github.com/whoisnian/glb/zzverif/vos"
+	"verif/engine/shim/vos"
 	"verif/engine/vcommon"
 )
 
